@@ -766,14 +766,26 @@ def strip_casts(t):
     return map_term(t, f)
 
 
+def _is_mult(c):
+    """(n, d) when c says 'n is a multiple of d' (is_multiple_of call, or n % d == 0)"""
+    if c[0] == "call" and isinstance(c[1], str) and c[1].endswith("::is_multiple_of") and len(c[2]) == 2:
+        return c[2]
+    if c[0] == "op" and c[1] == "Eq":
+        for a, b in ((c[2], c[3]), (c[3], c[2])):
+            if b == ("const", 0) and a[0] == "op" and a[1] == "Rem":
+                return (a[2], a[3])
+    return None
+
+
 def normalise(t):
-    """canonical forms: ceil-division idioms, commutative sorting, comparison direction"""
+    """canonical forms: ceil-division idioms, commutative sorting, comparison direction, and the unsigned-integer
+    identities  x & (2^k - 1) = x % 2^k,  x.is_multiple_of(d) = (x % d == 0),  x - (x / d) * d = x % d"""
     def f(x):
         if x[0] == "ite":
             c, a, b = x[1], x[2], x[3]
             # if n % d == 0 { n/d } else { n/d + 1 }
-            if c[0] == "call" and isinstance(c[1], str) and c[1].endswith("::is_multiple_of"):
-                n, d = c[2]
+            if _is_mult(c) is not None:
+                n, d = _is_mult(c)
                 q = ("op", "Div", n, d)
                 a0 = a[2] if a[0] == "cast" else a
                 b0 = b[2] if b[0] == "cast" else b
@@ -785,8 +797,26 @@ def normalise(t):
             return x
         if x[0] == "call" and isinstance(x[1], str) and x[1].endswith("::div_ceil") and len(x[2]) == 2:
             return ("ceildiv", x[2][0], x[2][1])
+        if x[0] == "call" and isinstance(x[1], str) and x[1].endswith("::is_multiple_of") and len(x[2]) == 2:
+            return f(("op", "Eq", ("const", 0), ("op", "Rem", x[2][0], x[2][1])))
         if x[0] == "op":
             op, a, b = x[1], x[2], x[3]
+            if op == "Add" and a == ("const", 0):
+                return b
+            if op in ("Add", "Sub") and b == ("const", 0):
+                return a
+            if op == "Mul" and a == ("const", 1):
+                return b
+            if op == "Mul" and b == ("const", 1):
+                return a
+            if op == "BitAnd":
+                for u, m in ((a, b), (b, a)):
+                    if m[0] == "const" and isinstance(m[1], int) and m[1] > 0 and (m[1] & (m[1] + 1)) == 0:
+                        return ("op", "Rem", u, ("const", m[1] + 1))
+            if op == "Sub" and b[0] == "op" and b[1] == "Mul":
+                for q, d in ((b[2], b[3]), (b[3], b[2])):
+                    if q[0] == "op" and q[1] == "Div" and q[2] == a and q[3] == d:
+                        return ("op", "Rem", a, d)
             if op in COMMUTATIVE and repr(b) < repr(a):
                 return ("op", op, b, a)
             if op == "Gt":
